@@ -85,6 +85,17 @@ def font_clause(ck, tier, seed, tmp, exe):
                 # (a rewrite that decodes to different bytes of the right size may load or not: only safety is observed)
                 else:
                     jobs.append({"font": path, "file": text, "dir": 1, "maxlines": 3, "id": jid, "prop": "none"})
+        # a valid block under a header that announces more bytes than the block decodes to: the table cannot be complete
+        for t in ("Silf", "Glat"):
+            orig = tabs[t]
+            size = struct.unpack(">I", orig[4:8])[0]
+            for k, inc in enumerate((1, 4, 256) if tier == "quick" else (1, 2, 4, 7, 8, 256, 70000)):
+                if (size & 0x07FFFFFF) + inc > 0x07FFFFFF:
+                    continue
+                mut = orig[:4] + struct.pack(">I", size + inc) + orig[8:]
+                path = os.path.join(tmp, "%s.big-%s-%d.ttf" % (base, t, k))
+                open(path, "wb").write(sfnt.build_sfnt(dict(tabs, **{t: mut})))
+                jobs.append({"font": path, "file": text, "dir": 1, "maxlines": 3, "id": "%s|announce-%s+%d" % (base, t, inc), "noload": "C14"})
     jf = os.path.join(tmp, "fontjobs.ndjson")
     open(jf, "w").write("\n".join(json.dumps(j) for j in jobs) + "\n")
     h = vlib.run_harness(exe, ["shape", jf], timeout=6000)
